@@ -360,7 +360,15 @@ impl fmt::Display for IterableKind {
         let s = match self {
             IterableKind::Numbers(v) => format!("{:?}", v),
             IterableKind::Integers(v) => format!("{:?}", v),
-            IterableKind::Anys(v) => format!("{:?}", v),
+            // elements of mixed type are written the way a literal writes them
+            // (`[1, 2.5, 3]`), not in their debug form (`[Integer(1), Number(2.5), Integer(3)]`)
+            IterableKind::Anys(v) => format!(
+                "[{}]",
+                v.iter()
+                    .map(|element| element.to_string())
+                    .collect::<Vec<_>>()
+                    .join(", ")
+            ),
             IterableKind::PositiveIntegers(v) => format!("{:?}", v),
             IterableKind::Strings(v) => format!("{:?}", v),
             IterableKind::Edges(v) => format!("{:?}", v),
